@@ -57,9 +57,36 @@ theorem idents_unique_ci (s : N) (h : NsInv s) (p : El) (hp : s.hasTbl p = true)
     (hv : (s.info e).ident = some v) (hv' : (s.info e').ident = some v') (hci : lower v = lower v') : e = e' :=
   idents_unique' h p hp hpol e e' (lower v) he he' hk (by simp [hv]) (by simp [hv', hci])
 
+theorem filter_unique {l : List El} {q : El → Bool} {e : El} (hnd : l.Nodup) (hmem : e ∈ l) (hq : q e = true)
+    (huniq : ∀ a ∈ l, q a = true → a = e) : l.filter q = [e] := by
+  induction l with
+  | nil => simp at hmem
+  | cons a t ih =>
+    have hnd' := List.nodup_cons.1 hnd
+    simp only [List.filter_cons]
+    cases ha : q a with
+    | true =>
+      have hae := huniq a (by simp) ha
+      subst hae
+      simp only [if_true]
+      congr 1
+      rw [List.filter_eq_nil_iff]
+      intro b hb hqb
+      have := huniq b (by simp [hb]) (by simpa using hqb)
+      subst this
+      exact hnd'.1 hb
+    | false =>
+      simp only [Bool.false_eq_true, if_false]
+      have hne : e ≠ a := by intro e1; subst e1; simp [hq] at ha
+      have : e ∈ t := by
+        rcases List.mem_cons.1 hmem with h | h
+        · exact absurd h hne
+        · exact h
+      exact ih hnd'.2 this (fun b hb hqb => huniq b (by simp [hb]) hqb)
+
 /-- "Asking a parent for a child by exact name returns precisely the children a linear scan finds" -/
 theorem lookup_eq_scan_name (s : N) (h : NsInv s) (p : El) (kd : Kind) (v : String) :
-    s.lookup p kd .name v = s.scan p kd .name v := by
+    s.lookup p kd .name v = s.scanAll p kd .name v := by
   simp only [N.lookup]
   cases hp : s.hasTbl p with
   | false => simp
@@ -68,20 +95,20 @@ theorem lookup_eq_scan_name (s : N) (h : NsInv s) (p : El) (kd : Kind) (v : Stri
     cases hn : s.names p kd v with
     | none => rfl
     | some e =>
-      simp only [N.scan, Rec.get]
+      simp only [N.scanAll, Rec.get]
       have := (h.names_iff p hp kd v e).1 hn
       symm
-      apply find?_unique ((h.kids_iff p e).2 this.1) (by simp [this.2.1, this.2.2])
+      apply filter_unique (h.kids_nd p) ((h.kids_iff p e).2 this.1) (by simp [this.2.1, this.2.2])
       intro a ha hq
       simp only [Bool.and_eq_true, decide_eq_true_eq, beq_iff_eq] at hq
       exact names_unique' h p hp a e v ((h.kids_iff p a).1 ha) this.1 (by rw [hq.1, this.2.1]) hq.2 this.2.2
 
-/-- identifiers under the EDIF class: a child whose identifier equals the query ignoring case is found
-    (the lower-cased table answers, and a table miss falls through to the exact scan, which then misses
-    too); under the DEFAULT class (not indexed) the lookup *is* the scan. -/
+/-- identifiers under the EDIF class: exactly the children whose identifier equals the query ignoring case
+    (at most one) are returned; under the DEFAULT class, where identifiers are plain data that may repeat,
+    the lookup *is* the scan and returns every match. -/
 theorem lookup_eq_scan_ident (s : N) (h : NsInv s) (p : El) (kd : Kind) (v : String) :
     s.lookup p kd .ident v =
-      (if s.hasTbl p = true ∧ s.tpol p = .edif then s.scanCI p kd v else s.scan p kd .ident v) := by
+      (if s.hasTbl p = true ∧ s.tpol p = .edif then s.scanAllCI p kd v else s.scanAll p kd .ident v) := by
   simp only [N.lookup]
   cases hp : s.hasTbl p with
   | false => simp
@@ -89,12 +116,12 @@ theorem lookup_eq_scan_ident (s : N) (h : NsInv s) (p : El) (kd : Kind) (v : Str
     cases hpol : s.tpol p with
     | default => simp
     | edif =>
-      simp only [if_true, true_and, N.scanCI]
+      simp only [if_true, true_and, N.scanAllCI]
       cases hn : s.idents p kd (lower v) with
       | some e =>
         have := (h.idents_iff p hp hpol kd (lower v) e).1 hn
         symm
-        apply find?_unique ((h.kids_iff p e).2 this.1) (by simp [this.2.1, this.2.2])
+        apply filter_unique (h.kids_nd p) ((h.kids_iff p e).2 this.1) (by simp [this.2.1, this.2.2])
         intro a ha hq
         simp only [Bool.and_eq_true, decide_eq_true_eq, beq_iff_eq] at hq
         exact idents_unique' h p hp hpol a e (lower v) ((h.kids_iff p a).1 ha) this.1 (by rw [hq.1, this.2.1]) hq.2 this.2.2
@@ -104,14 +131,14 @@ theorem lookup_eq_scan_ident (s : N) (h : NsInv s) (p : El) (kd : Kind) (v : Str
           intro a ha hq
           have := (h.idents_iff p hp hpol kd (lower v) a).2 ⟨(h.kids_iff p a).1 ha, hq.1, hq.2⟩
           rw [hn] at this; cases this
-        have e1 : s.scan p kd .ident v = none := by
-          simp only [N.scan, Rec.get]
-          rw [List.find?_eq_none]
+        have e1 : s.scanAll p kd .ident v = [] := by
+          simp only [N.scanAll, Rec.get]
+          rw [List.filter_eq_nil_iff]
           intro a ha hq
           simp only [Bool.and_eq_true, decide_eq_true_eq, beq_iff_eq] at hq
           exact hnone a ha ⟨hq.1, by simp [hq.2]⟩
-        have e2 : List.find? (fun c => decide (c.kind = kd) && Option.map lower (s.info c).ident == some (lower v)) (s.kids p) = none := by
-          rw [List.find?_eq_none]
+        have e2 : List.filter (fun c => decide (c.kind = kd) && Option.map lower (s.info c).ident == some (lower v)) (s.kids p) = [] := by
+          rw [List.filter_eq_nil_iff]
           intro a ha hq
           simp only [Bool.and_eq_true, decide_eq_true_eq, beq_iff_eq] at hq
           exact hnone a ha ⟨hq.1, hq.2⟩
@@ -180,6 +207,6 @@ def demoN : List Op :=
 
 example : (run (N.initWith .edif) demoN).2 = [.ok, .ok, .ok, .ok, .ok, .ok, .value, .ok, .ok, .value, .ok, .ok] := by decide
 example : NsInv (run (N.initWith .edif) demoN).1 := run_nsinv_both_policies .edif demoN
-example : (run (N.initWith .edif) demoN).1.lookup l0 .definition .ident "ABC" = some d1 := by decide
+example : (run (N.initWith .edif) demoN).1.lookup l0 .definition .ident "ABC" = [d1] := by decide
 
 end Spydr.Names
